@@ -15,6 +15,8 @@ def gen_cases(tier, seed, configs, n=None, tag="C01"):
         upper = r.choice([2, 2, 2, 1, 0, 3, H]) if not periodic else r.choice([1, 1, 1, 2, 3, 0])
         body = ["dump structure", "exec seq flags=63 upper=%d" % upper, "dump values",
                 "spec elems flags=63 upper=%d" % upper]
+        if k % 4 == 1:
+            body = ["rebuild"] + body        # the same tree through TbfTree::rebuild() (its own copy of the grouping code), nothing moved
         cases.append(corefam.make_case("%s-%d" % (tag.lower(), k), D, H, periodic, parts, bs, mode, body, {"kind": kind, "upper": upper}))
     return cases
 
